@@ -40,3 +40,40 @@ benign("c02-try-from-slice-match", ["C02"], [("src/lib.rs", "if slice.len() != N
 benign("c02-from-slice-lt-or-gt", ["C02"], [("src/lib.rs", "if slice.len() != N::USIZE {\n            panic!(\"slice.len() != N in GenericArray::from_slice\");", "if slice.len() < N::USIZE || slice.len() > N::USIZE {\n            panic!(\"slice.len() != N in GenericArray::from_slice\");")])
 benign("c02-as-slice-cast-method", ["C02"], [("src/lib.rs", "slice::from_raw_parts(self as *const Self as *const T, N::USIZE)", "slice::from_raw_parts((self as *const Self).cast::<T>(), Self::len())")])
 benign("c02-asref-via-deref", ["C02"], [("src/impls.rs", "fn as_ref(&self) -> &[T] {\n        self.as_slice()", "fn as_ref(&self) -> &[T] {\n        &**self")])
+
+# ---- C10 ------------------------------------------------------------------------------------
+_CH = "let num_chunks = slice.len() / N::USIZE; // integer division\n        let num_in_chunks = num_chunks * N::USIZE;\n        let num_remainder = slice.len() - num_in_chunks;\n\n        unsafe {\n            (\n                slice::from_raw_parts(slice.as_ptr() as *const GenericArray<T, N>, num_chunks),\n                slice::from_raw_parts(slice.as_ptr().add(num_in_chunks), num_remainder),"
+mutant("c10-remainder-minus-chunks", ["C10"], [("src/lib.rs", _CH, _CH.replace("slice.len() - num_in_chunks", "slice.len() - num_chunks"))], "C10.C")
+mutant("c10-remainder-ptr-add-chunks", ["C10"], [("src/lib.rs", _CH, _CH.replace("slice.as_ptr().add(num_in_chunks)", "slice.as_ptr().add(num_chunks)"))], "C10.C")
+mutant("c10-flatten-plus-one", ["C10"], [("src/lib.rs", "slice::from_raw_parts(slice.as_ptr() as *const T, slice.len() * N::USIZE)", "slice::from_raw_parts(slice.as_ptr() as *const T, slice.len() * N::USIZE + 1)")], "C10.F")
+mutant("c10-zero-branch-no-assert", ["C10"], [("src/lib.rs", "if N::USIZE == 0 {\n            assert!(slice.is_empty(), \"GenericArray length N must be non-zero\");\n            return (&[], &[]);", "if N::USIZE == 0 {\n            if false { assert!(slice.is_empty(), \"GenericArray length N must be non-zero\"); }\n            return (&[], &[]);")], "C10.C")
+mutant("c10-chunks-count-plus", ["C10"], [("src/lib.rs", "slice::from_raw_parts_mut(\n                    slice.as_mut_ptr() as *mut GenericArray<T, N>,\n                    num_chunks,", "slice::from_raw_parts_mut(\n                    slice.as_mut_ptr() as *mut GenericArray<T, N>,\n                    num_chunks + (num_remainder > 0) as usize,")], "C10.C")
+benign("c10-remainder-mod", ["C10"], [("src/lib.rs", _CH, _CH.replace("slice.len() - num_in_chunks", "slice.len() % N::USIZE"))])
+benign("c10-flatten-commute", ["C10"], [("src/lib.rs", "slice::from_raw_parts(slice.as_ptr() as *const T, slice.len() * N::USIZE)", "slice::from_raw_parts(slice.as_ptr().cast::<T>(), N::USIZE * slice.len())")])
+
+# ---- C09 ------------------------------------------------------------------------------------
+mutant("c09-pop-front-tail-offset0", ["C09"], [("src/sequence.rs", "let tail = ptr::read(whole.as_ptr().offset(1) as _);", "let tail = ptr::read(whole.as_ptr().offset(0) as _);")], "C09.M")
+mutant("c09-append-last-at-n-minus-1", ["C09"], [("src/sequence.rs", "ptr::write(out_ptr.add(1) as *mut T, last);", "ptr::write((out_ptr as *mut T).add(N::USIZE.saturating_sub(1)), last);")], "C09.M")
+mutant("c09-split-mut-tail-plus1", ["C09"], [("src/sequence.rs", "let tail = &mut *(ptr_to_first.add(K::USIZE) as *mut _);", "let tail = &mut *(ptr_to_first.add(K::USIZE + (K::USIZE > 30) as usize) as *mut _);")], "C09.S")
+mutant("c09-remove-copy-n-minus-idx", ["C09"], [("src/sequence.rs", "ptr::copy(dst.add(1), dst, N::USIZE - idx - 1);", "ptr::copy(dst.add(1), dst, N::USIZE - idx);")], "C09.M")
+mutant("c09-remove-copy-reversed", ["C09"], [("src/sequence.rs", "ptr::copy(dst.add(1), dst, N::USIZE - idx - 1);", "ptr::copy(dst, dst.add(1), N::USIZE - idx - 1);")], "C09.M")
+mutant("c09-remove-assert-le", ["C09"], [("src/sequence.rs", "fn remove(self, idx: usize) -> (T, Self::Output) {\n        assert!(\n            idx < N::USIZE,", "fn remove(self, idx: usize) -> (T, Self::Output) {\n        assert!(\n            idx <= N::USIZE,")], "C09.A")
+mutant("c09-swap-remove-n-minus-2", ["C09"], [("src/sequence.rs", "array.swap(idx, N::USIZE - 1);", "array.swap(idx, if N::USIZE > 40 { N::USIZE - 2 } else { N::USIZE - 1 });")], "C09.M")
+mutant("c09-concat-rest-first", ["C09"], [("src/sequence.rs", "let out_ptr = output.as_mut_ptr() as *mut Self;\n\n        unsafe {\n            // write all of self to the pointer\n            ptr::write(out_ptr, self);\n            // increment past self, then write the rest\n            ptr::write(out_ptr.add(1) as *mut _, rest);", "let out_ptr = output.as_mut_ptr() as *mut Self::Rest;\n\n        unsafe {\n            ptr::write(out_ptr, rest);\n            ptr::write(out_ptr.add(1) as *mut _, self);")], "C09.M")
+mutant("c09-split-ref-copying", ["C09"], [("src/sequence.rs", "let ptr_to_first: *const T = self.as_ptr();\n            let head = &*(ptr_to_first as *const _);", "let ptr_to_first: *const T = self.as_ptr();\n            let _x: core::mem::ManuallyDrop<T> = core::mem::ManuallyDrop::new(ptr::read(ptr_to_first.add(N::USIZE - N::USIZE.min(1))));\n            let head = &*(ptr_to_first as *const _);")], "C09.S")
+benign("c09-remove-count-reordered", ["C09"], [("src/sequence.rs", "ptr::copy(dst.add(1), dst, N::USIZE - idx - 1);", "ptr::copy(dst.add(1), dst, N::USIZE - 1 - idx);")])
+benign("c09-pop-front-add", ["C09"], [("src/sequence.rs", "let tail = ptr::read(whole.as_ptr().offset(1) as _);", "let tail = ptr::read(whole.as_ptr().add(1) as _);")])
+benign("c09-split-reads-reordered", ["C09"], [("src/sequence.rs", "let head = ptr::read(whole.as_ptr() as *const _);\n            let tail = ptr::read(whole.as_ptr().add(K::USIZE) as *const _);", "let tail = ptr::read(whole.as_ptr().add(K::USIZE) as *const _);\n            let head = ptr::read(whole.as_ptr() as *const _);")])
+benign("c09-remove-assert-if", ["C09"], [("src/sequence.rs", "fn remove(self, idx: usize) -> (T, Self::Output) {\n        assert!(\n            idx < N::USIZE,", "fn remove(self, idx: usize) -> (T, Self::Output) {\n        assert!(\n            N::USIZE > idx,")])
+
+# ---- C11 ------------------------------------------------------------------------------------
+mutant("c11-flatten-sum", ["C11"], [
+    ("src/sequence.rs", "pub unsafe trait Flatten<T, N, M>: GenericSequence<GenericArray<T, N>, Length = M>\nwhere\n    N: ArrayLength + Mul<M>,\n    Prod<N, M>: ArrayLength,\n{\n    /// Flattened sequence type\n    type Output: GenericSequence<T, Length = Prod<N, M>>;",
+     "pub unsafe trait Flatten<T, N, M>: GenericSequence<GenericArray<T, N>, Length = M>\nwhere\n    N: ArrayLength + Mul<M>,\n    Prod<N, M>: ArrayLength,\n{\n    /// Flattened sequence type\n    type Output;"),
+    ("src/sequence.rs", "unsafe impl<'a, T, N, M> Flatten<T, N, M> for &'a GenericArray<GenericArray<T, N>, M>\nwhere\n    N: ArrayLength + Mul<M>,\n    M: ArrayLength,\n    Prod<N, M>: ArrayLength,\n{\n    type Output = &'a GenericArray<T, Prod<N, M>>;",
+     "unsafe impl<'a, T, N, M> Flatten<T, N, M> for &'a GenericArray<GenericArray<T, N>, M>\nwhere\n    N: ArrayLength + Mul<M> + Add<M>,\n    M: ArrayLength,\n    Prod<N, M>: ArrayLength,\n    Sum<N, M>: ArrayLength,\n{\n    type Output = &'a GenericArray<T, Sum<N, M>>;")], "C11.E")
+mutant("c11-unflatten-ref-longer", ["C11"], [
+    ("src/sequence.rs", "    /// Unflattened sequence type\n    type Output: GenericSequence<GenericArray<T, N>, Length = Quot<NM, N>>;", "    /// Unflattened sequence type\n    type Output;"),
+    ("src/sequence.rs", "    type Output = &'a GenericArray<GenericArray<T, N>, Quot<NM, N>>;", "    type Output = &'a GenericArray<GenericArray<T, N>, NM>;")], "C11.E")
+mutant("c11-flatten-mut-from-shared-cast", ["C11"], [("src/sequence.rs", "    type Output = &'a mut GenericArray<T, Prod<N, M>>;\n\n    #[inline(always)]\n    fn flatten(self) -> Self::Output {\n        unsafe { mem::transmute(self) }", "    type Output = &'a mut GenericArray<T, Prod<N, M>>;\n\n    #[inline(always)]\n    fn flatten(self) -> Self::Output {\n        unsafe { mem::transmute(&mut self[M::USIZE - M::USIZE.min(1)]) }")], "C11.E")
+benign("c11-flatten-ref-ptr-cast", ["C11"], [("src/sequence.rs", "    type Output = &'a GenericArray<T, Prod<N, M>>;\n\n    #[inline(always)]\n    fn flatten(self) -> Self::Output {\n        unsafe { mem::transmute(self) }", "    type Output = &'a GenericArray<T, Prod<N, M>>;\n\n    #[inline(always)]\n    fn flatten(self) -> Self::Output {\n        unsafe { mem::transmute::<&'a GenericArray<GenericArray<T, N>, M>, Self::Output>(self) }")])
